@@ -432,6 +432,17 @@ def silent(rep, tier):
             env_e.update({"a": a_, "w": w_, "z0": z_})
             cr.add("O20.silent.sliced(D=%d,%s)" % (D, nm), "O20.silent", D, ["a", "w"], "auto&& s = v.sliced(a, a + w); out[0] = s.size();",
                    {(0, "size"): w_}, cases=[dict(env_e, __signs=sg2)])
+        # indexing a D > 1 view (mutable and const overloads): in domain silent, one past the end / beyond / before must reach the handler
+        for cv, vexpr in (("mutable", "v"), ("const", "std::as_const(v)")):
+            env_i = dict(env2)
+            env_i.update({"i0": A("ra"), "z0": A("ra") + 1 + A("tt")})
+            cr.add("O20.silent.index(D=%d,%s)" % (D, cv), "O20.silent", D, ["i0"], "out[0] = %s[i0].size();" % vexpr, {(0, "size of the sub-view"): env2["z1"]},
+                   cases=[dict(env_i, __signs=sg2)])
+            for nm, i0, z0 in (("one past the end", 1 + A("tt"), 1 + A("tt")), ("beyond", 2 + A("tt") + A("ra"), 1 + A("tt")), ("before", -1 - A("ra"), 1 + A("tt"))):
+                env_x = dict(env2)
+                env_x.update({"i0": i0, "z0": z0})
+                cr.add("O20.fires.index-%s(D=%d,%s)" % (nm, D, cv), "O20.fires", D, ["i0"], "out[0] = %s[i0].size();" % vexpr, {(0, "must-assert"): P.const(0)},
+                       cases=[dict(env_x, __signs=sg2, __expect_assert=True)])
         # out of domain: the slice ends beyond the extension
         env_o = dict(env2)
         env_o.update({"a": A("ra"), "w": 2 + A("u") + A("tt"), "z0": A("ra") + 1 + A("u")})
